@@ -23,13 +23,20 @@ func (pt *WgCounter) Count() int {
 	return int(pt.count.Load())
 }
 
-func (pt *WgCounter) Done() {
-	if pt.count.Load() == 0 {
-		return
-	}
+// Done marks one item as finished and reports whether it was the last one.
+// It does nothing once the counter has reached zero.
+func (pt *WgCounter) Done() bool {
+	for {
+		c := pt.count.Load()
+		if c == 0 {
+			return false
+		}
 
-	pt.count.Add(^uint32(0))
-	pt.wg.Done()
+		if pt.count.CompareAndSwap(c, c-1) {
+			pt.wg.Done()
+			return c == 1
+		}
+	}
 }
 
 func (pt *WgCounter) Wait() {
